@@ -33,6 +33,15 @@ type roundCase struct {
 }
 
 func acceptBoth(sig string, m string, l ref.Lang, how string) error {
+	// a typo first: the same sentence with a middle word replaced by a non-word, and with a wrong
+	// last word, are validated (and must be rejected) right before the real one
+	if toks := strings.Split(m, l.Sep()); len(toks) >= 12 {
+		typo := append([]string(nil), toks...)
+		typo[len(typo)/2] = "qqqq"
+		if ok, _ := implValid(strings.Join(typo, " "), implLang[l]); ok {
+			return failf(sig+" typo-accepted", "IsMnemonicValid accepts %q under %s", strings.Join(typo, " "), l)
+		}
+	}
 	err, p := implCheck(m, implLang[l])
 	if p != nil {
 		return failf(sig+" panic", "CheckMnemonic(%q, %s) panicked: %v", m, l, p)
